@@ -7,11 +7,19 @@ POST/GET /api/v2/alerts + GC ticker + alertmanager_alerts_limited_total; the lim
 evaluated directly on what the real code shows.
 Silence limits: Silences.tla (MaxSilences, TooBig), MC_Silences_life.cfg, Gen_Silences behaviours
 replayed on the real silence.Silences (checks/silcommon).
-GET concurrency: spec/Limits.tla (semaphore), MC_Limits.cfg, Gen_Limits behaviours replayed on the
-real api.New(...) limiter with GETs parked inside an injected GroupFunc.
+Per-alert-name limit at the level of the statement: spec/mc/LimitsName.tla (the SET of unexpired
+admitted alerts; alert GC is not an action, it has to be invisible), MC_LimitsName.cfg; Gen_LimitsName:
+exhaustive fill / wait / probe families (every assignment of end times from 5 values to the admissions =
+every admission order, every waiting time, GC between any two instants) for N = 4, 5, 6 and simulated
+behaviours for N = 4, 5, 6, replayed through the real provider + API + GC ticker (TestNameLimit).
+GET concurrency: spec/Limits.tla (semaphore + request timeout: a request ends for the client by timeout
+while its handler keeps running; the property is stated over the handlers RUNNING), MC_Limits.cfg,
+Gen_Limits behaviours (simulated and exhaustive short ones) replayed on the real api.New(...) handler
+chain with Timeout and Concurrency configured, the GET handlers gated from outside (TestLimiter).
 
 Known finding F4 (known_findings.d/C18.json): Bucket.IsStale looks at the last heap slice element."""
 import json, os, re
+from concurrent.futures import ThreadPoolExecutor
 from lib import vlib
 from lib.vlib import log
 from checks import c13 as cx
@@ -19,6 +27,105 @@ from checks import silcommon
 
 PID = "C18"
 LIMIT_CLASSES = ("overlimit", "resend", "counter", "admission", "concurrency")
+SHARDS = 6
+
+
+def replay_sharded(binp, test, gen_path, lib_path, out_prefix, shards=SHARDS):
+    """Replay the behaviours of gen_path in `shards` processes of the harness (line i goes to shard i % shards)."""
+    n = vlib.count_lines(gen_path)
+    shards = max(1, min(shards, n // 50))
+    if shards == 1:
+        return cx.run_replay(binp, test, gen_path, lib_path, out_prefix + ".json")
+    parts = [open("%s.in%d" % (out_prefix, k), "w") for k in range(shards)]
+    with open(gen_path) as f:
+        for i, line in enumerate(f):
+            parts[i % shards].write(line)
+    for p in parts:
+        p.close()
+    with ThreadPoolExecutor(shards) as ex:
+        rs = list(ex.map(lambda k: cx.run_replay(binp, test, "%s.in%d" % (out_prefix, k), lib_path, "%s.%d.json" % (out_prefix, k)), range(shards)))
+    out = {"cases": 0, "steps": 0, "nontrivial": 0, "counters": cx.sum_counters(rs), "mismatches": [], "n_mismatches": 0, "samples": rs[0]["samples"]}
+    for k, r in enumerate(rs):
+        for key in ("cases", "steps", "nontrivial", "n_mismatches"):
+            out[key] += r[key]
+        for m in r["mismatches"]:
+            m["case"] = m["case"] * shards + k
+            out["mismatches"].append(m)
+        os.remove("%s.in%d" % (out_prefix, k))
+    out["mismatches"].sort(key=lambda m: (m["case"], m["step"]))
+    return out
+
+
+def namelimit_stage(binp, wd, thorough):
+    """LimitsName: model check, generate (exhaustive families + simulation), replay.  Returns (mc, runs) with
+    runs = [(label, lib_path, result)]."""
+    mc = vlib.tlc(PID, "mc_name", "MC_LimitsName", "MC_LimitsName_thorough.cfg" if thorough else "MC_LimitsName.cfg", workers=4, timeout=300)
+    vlib.tlc_must_pass(mc, "MC_LimitsName")
+    log("  MC_LimitsName: %d states generated, %d distinct" % (mc.generated, mc.distinct))
+    gcs = "{1, 2, 3}" if thorough else "{1}"
+    # (N, Fill, FillEnds, Distinct, Waits): every assignment of the end times to the admissions, every waiting time
+    fams = [(4, 4, "{1, 2, 3, 4, 6}", "FALSE", "{1, 2, 3, 4, 5, 6, 7}"),
+            (5, 5, "{1, 2, 3, 4, 6}", "TRUE", "{1, 2, 3, 4, 5, 6, 7}"),
+            (6, 5, "{1, 2, 3, 4, 6}", "TRUE", "{1, 2, 3, 4, 5, 6, 7}")]
+    if thorough:
+        fams += [(4, 5, "{1, 2, 3, 4, 6}", "TRUE", "{1, 2, 3, 4, 5, 6, 7}"),
+                 (5, 4, "{1, 2, 3, 4, 6}", "FALSE", "{1, 2, 3, 4, 5, 6, 7}"),
+                 (5, 5, "{1, 2, 3, 4, 6}", "FALSE", "{2, 3, 4, 5, 6}"),
+                 (6, 6, "{1, 2, 3, 4, 6, 7}", "TRUE", "{2, 3, 4, 5, 6, 7}")]
+    jobs = []
+    for n, fill, ends, distinct, waits in fams:
+        name = "name_exh_n%d_f%d%s" % (n, fill, "d" if distinct == "TRUE" else "")
+        cfgp = cx.derive_cfg(PID, "Gen_LimitsName_exh.cfg", "Gen_%s.cfg" % name, N="= %d" % n, Fill="= %d" % fill, FillEnds="= " + ends,
+                             Distinct="= " + distinct, Waits="= " + waits, Fresh="= %d" % n, GCPers="= " + gcs)
+        jobs.append((name, "N=%d, %d admissions, %s end times from %s" % (n, fill, "pairwise distinct" if distinct == "TRUE" else "all", ends), cfgp, None))
+    for n in ((2, 3, 4, 5, 6) if thorough else (4, 5, 6)):
+        name = "name_sim_n%d" % n
+        cfgp = cx.derive_cfg(PID, "Gen_LimitsName.cfg", "Gen_%s.cfg" % name, N="= %d" % n)
+        jobs.append((name, "N=%d, simulated" % n, cfgp, "num=%d" % (150 if thorough else 15)))
+
+    def one(job):
+        name, label, cfgp, sim = job
+        gp, lp = os.path.join(wd, "gen_%s.jsonl" % name), os.path.join(wd, "lib_%s.json" % name)
+        g = cx.tlc_gen(PID, "gen_" + name, "Gen_LimitsName", os.path.basename(cfgp), gp, lp, simulate=sim, depth=45 if sim else None,
+                       workers=4, timeout=900, files=[cfgp])
+        if g.behaviours < 100:
+            raise vlib.Inconclusive("Gen %s produced only %d behaviours" % (name, g.behaviours))
+        r = replay_sharded(binp, "TestNameLimit$", gp, lp, os.path.join(wd, "replay_" + name))
+        log("  replay per-name limit (%s): %d behaviours, %d steps, %d disagreements, counters %s" % (label, r["cases"], r["steps"], r["n_mismatches"], r["counters"]))
+        return (label, lp, r)
+
+    with ThreadPoolExecutor(2) as ex:
+        runs = list(ex.map(one, jobs))
+    return mc, runs
+
+
+def limiter_stage(binp, wd, thorough):
+    """Limits.tla: model check, generate (simulation + exhaustive short behaviours), replay.  Returns (mc, runs) with
+    runs = [(k, t, result)]."""
+    sem = vlib.tlc(PID, "mc_sem", "MC_Limits", "MC_Limits.cfg", workers=4, timeout=120, coverage=True)
+    vlib.tlc_must_pass(sem, "MC_Limits.cfg")
+    if [a for a, (d, g) in sem.coverage.items() if a.startswith("Next@") and g == 0]:
+        raise vlib.Inconclusive("MC_Limits: an action was never taken")
+    log("  MC_Limits.cfg: %d states generated, %d distinct" % (sem.generated, sem.distinct))
+    # (K, T, exhaustive history length or None for simulation)
+    jobs = [(1, 2, None), (2, 2, None), (3, 2, None), (2, 0, None), (1, 2, 5), (2, 1, 5)]
+    if thorough:
+        jobs = [(k, t, None) for k in (1, 2, 3, 4) for t in (0, 1, 2, 3)] + [(k, t, 6) for k in (1, 2, 3) for t in (1, 2, 3)]
+    runs = []
+    for k, t, exh in jobs:
+        name = "sem_k%d_t%d%s" % (k, t, "_exh" if exh else "")
+        if exh:
+            cfgp = cx.derive_cfg(PID, "Gen_Limits_exh.cfg", "Gen_%s.cfg" % name, K="= %d" % k, T="= %d" % t, HistLen="= %d" % exh)
+        else:
+            cfgp = cx.derive_cfg(PID, "Gen_Limits.cfg", "Gen_%s.cfg" % name, K="= %d" % k, T="= %d" % t)
+        gp, lp = os.path.join(wd, "gen_%s.jsonl" % name), os.path.join(wd, "lib_%s.json" % name)
+        cx.tlc_gen(PID, "gen_" + name, "Gen_Limits", os.path.basename(cfgp), gp, lp, simulate=None if exh else "num=%d" % (200 if thorough else 15),
+                   depth=None if exh else 24, workers=4, timeout=600, files=[cfgp])
+        r = replay_sharded(binp, "TestLimiter$", gp, lp, os.path.join(wd, "replay_" + name), shards=3)
+        log("  replay limiter K=%d timeout=%d%s: %d behaviours, %d steps, %d disagreements, counters %s" %
+            (k, t, " (all histories of %d steps)" % exh if exh else "", r["cases"], r["steps"], r["n_mismatches"], r["counters"]))
+        runs.append((k, t, r))
+    return sem, runs
 
 
 def run_f4(binp, wd):
@@ -34,6 +141,10 @@ def run(tier, v):
     thorough = tier == "thorough"
     binp = vlib.go_build_test(PID, "c18")
     known = {f["key"]: f for f in vlib.known_findings(PID)}
+    # stages 4 (GET limiter) and 5 (per-name limit at the level of the statement) are independent of the rest: run beside it
+    pool = ThreadPoolExecutor(2)
+    fut_lim = pool.submit(limiter_stage, binp, wd, thorough)
+    fut_name = pool.submit(namelimit_stage, binp, wd, thorough)
 
     # 0. the representative history of finding F4 on the real code
     f4, f4path = run_f4(binp, wd)
@@ -73,12 +184,6 @@ def run(tier, v):
         ref = cx.mc_run(PID, "mc_limit_ref", "MC_Alerts", "MC_Alerts_limit_ref.cfg", timeout=300, cov_maxtime=1)
         if not excuse:
             mcs.append(ref)
-    sem = vlib.tlc(PID, "mc_sem", "MC_Limits", "MC_Limits.cfg", workers=4, timeout=120, coverage=True)
-    vlib.tlc_must_pass(sem, "MC_Limits.cfg")
-    if [a for a, (d, g) in sem.coverage.items() if a.startswith("Next@") and g == 0]:
-        raise vlib.Inconclusive("MC_Limits: an action was never taken")
-    mcs.append(sem)
-    log("  MC_Limits.cfg: %d states generated, %d distinct" % (sem.generated, sem.distinct))
 
     # 2. per-alert-name limit: behaviours replayed through the real provider + API
     limits = (1, 2, 3, 4) if thorough else (1, 2, 3)
@@ -143,24 +248,44 @@ def run(tier, v):
         raise vlib.Inconclusive("silence behaviours contain only %d refused Set calls (limit / size)" % sil_limit_steps)
     log("  silences: %d behaviours replayed, %d Set calls refused by a limit" % (sum(r["cases"] for r in sresults), sil_limit_steps))
 
-    # 4. GET concurrency limiter
+    # 4. GET concurrency limiter + request timeout
+    sem, lruns = fut_lim.result()
+    mcs.append(sem)
     lres = []
-    for k in ((1, 2, 3, 4) if thorough else (1, 2, 3)):
-        cfgp = cx.derive_cfg(PID, "Gen_Limits.cfg", "Gen_Limits_%d.cfg" % k, K="= %d" % k)
-        gp, lp = os.path.join(wd, "gen_sem_%d.jsonl" % k), os.path.join(wd, "lib_sem_%d.json" % k)
-        g = cx.tlc_gen(PID, "gen_sem_%d" % k, "Gen_Limits", os.path.basename(cfgp), gp, lp, simulate="num=%d" % (200 if thorough else 15),
-                       depth=20, workers=4, timeout=600, files=[cfgp])
-        r = cx.run_replay(binp, "TestLimiter$", gp, lp, os.path.join(wd, "replay_sem_%d.json" % k))
-        log("  replay limiter K=%d: %d behaviours, %d steps, %d disagreements, counters %s" % (k, r["cases"], r["steps"], r["n_mismatches"], r["counters"]))
-        for m in r["mismatches"][:5]:
-            rp = os.path.join(wd, "replay_sem_%d_%d_%d.json" % (k, m["case"], m["step"]))
-            json.dump({"k": k, "behaviour": m.get("replay")}, open(rp, "w"))
-            v.violation("GET concurrency limit %d: %s at step %d: specification %s, real code %s" %
-                        (k, m["what"], m["step"], json.dumps(m.get("want"))[:300], json.dumps(m.get("got"))[:300]), [rp])
+    for k, t, r in lruns:
+        ms = sorted(r["mismatches"], key=lambda m: (m.get("class") != "concurrency", m["case"], m["step"]))
+        for m in ms[:3]:
+            rp = os.path.join(wd, "replay_sem_%d_%d_%d_%d.json" % (k, t, m["case"], m["step"]))
+            json.dump({"k": k, "t": t, "behaviour": m.get("replay")}, open(rp, "w"))
+            v.violation("GET concurrency limit %d, request timeout %d: %s at step %d: specification %s, real code %s" %
+                        (k, t, m["what"], m["step"], json.dumps(m.get("want"))[:300], json.dumps(m.get("got"))[:300]), [rp])
         lres.append(r)
     lcnt = cx.sum_counters(lres)
-    if not v.violations and (lcnt.get("refused_503", 0) < 20 or lcnt.get("post_while_full", 0) < 20):
-        raise vlib.Inconclusive("limiter replay reached too few refusals / POSTs while full: %s" % lcnt)
+    if not v.violations:
+        for key, need in {"refused_503": 20, "post_while_full": 20, "timed_out": 20, "finish_after_timeout": 20, "refused_while_timed_out_handlers_run": 10}.items():
+            if lcnt.get(key, 0) < need:
+                raise vlib.Inconclusive("limiter replay reached too few cases of %s: %s" % (key, lcnt))
+
+    # 5. per-alert-name limit at the level of the statement (all admission orders, N up to 6)
+    nmc, nruns = fut_name.result()
+    pool.shutdown()
+    mcs.append(nmc)
+    nres = []
+    for label, lp, r in nruns:
+        for m in r["mismatches"][:2]:
+            if m.get("class") == "merge":
+                drift += 1
+                continue
+            rp = os.path.join(wd, "replay_name_%s_%d_%d.json" % (re.sub(r"\W+", "_", label)[:30], m["case"], m["step"]))
+            json.dump({"namelimit": json.load(open(lp)), "behaviour": m.get("replay"), "failing_step": m["step"]}, open(rp, "w"))
+            v.violation("per-alert-name limit (%s): %s at step %d (%s): specification %s, real code %s" %
+                        (label, m["what"], m["step"], m.get("class"), json.dumps(m.get("want"))[:300], json.dumps(m.get("got"))[:300]), [rp])
+        nres.append(r)
+    ncnt = cx.sum_counters(nres)
+    if not v.violations:
+        for key, need in {"refusals": 200, "resends_of_unexpired": 200, "admitted_into_room_made_by_expiry": 200, "gc_deleted": 200}.items():
+            if ncnt.get(key, 0) < need:
+                raise vlib.Inconclusive("per-name limit replay reached too few cases of %s: %s" % (key, ncnt))
 
     if drift:
         v.notes.append("DRIFT property=%s %d disagreement(s) between code and specification that belong to other properties (C13 / C12; reported by their checks)" % (PID, drift))
